@@ -1,6 +1,6 @@
 (* C07 — Base58, Base58Check and bech32 are exact, strict, side-effect-free inverses.
    Only statements; every proof is `exact <lemma proved elsewhere>`. *)
-From BU Require Import Lib.Bytes Lib.Slice Base58.Base58 Base58.Base58Proofs Bech32.Bech32 Bech32.Bech32Proofs Bech32.Purity Gen.AppendSites.
+From BU Require Import Lib.Bytes Lib.Slice Base58.Base58 Base58.Base58Proofs Bech32.Bech32 Bech32.Bech32Proofs Bech32.PurityModel Bech32.Purity Gen.AppendSites.
 
 (* Decode after Encode is the identity on every byte string *)
 Theorem C07_base58_decode_encode : forall b, Bytes b -> Base58.decode (Base58.encode b) = b.
